@@ -116,7 +116,7 @@ func checkC08(p *load.Program, r *kit.Report) {
 	r.NotDecided = "that each verdict equals the reference model's for adversarial inputs; byte-equality of a later Save; behaviour over histories."
 	r.Rule("NO-EFFECT-BEFORE-ERROR", "in ProcessHeader no path leads from an effect on repository state (field writes of Repository/Branch/HeaderData on non-fresh objects, channel sends, calls to mutators; a fallible mutator's effects are attributed to the result edges that are not effect-free) to a return whose error is not provably nil", 12)
 	r.Rule("ORDER", "the refusal checks precede every effect: each effect point is dominated by the pass edge of the work, parent, duplicate, split, bits, invalid-list guards, and the new-branch arm by the depth guard", 4)
-	r.Rule("GUARD-SHAPE", "the duplicate arm returns nil without effects; unknown-parent arm returns only non-nil; depth test is `longest.Height() - previousHeight > MaxBranchDepth` on the new-branch arm only", 3)
+	r.Rule("GUARD-SHAPE", "the duplicate arm returns nil without effects; unknown-parent arm returns only non-nil; depth test is `longest.Height() - previousHeight > MaxBranchDepth` on the new-branch arm only; nil is answered only behind Find(hash) found or after an effect on the tree", 4)
 
 	ph := fn(p, r, "NO-EFFECT-BEFORE-ERROR", H, "Repository.ProcessHeader")
 	if ph == nil {
@@ -159,6 +159,7 @@ func checkC08(p *load.Program, r *kit.Report) {
 		}
 	}
 
+	checkNilReturnsJustified(p, r, "GUARD-SHAPE", ph, g, effs)
 	// GUARD-SHAPE 1: duplicate arm: the fail edge of not-duplicate leads straight to `return nil`
 	// without effects.
 	if len(g.notDuplicate) == 1 {
@@ -651,4 +652,33 @@ func invalidMemoGuard(p *load.Program, r *kit.Report, rule string, ph *ssa.Funct
 		return nil
 	}
 	return edgesOf(gs, true)
+}
+
+// checkNilReturnsJustified: ProcessHeader answers nil in exactly two situations — the header is
+// already held by a branch (behind the found edge of repo.branches.Find(hash)) or it has just been
+// added to the tree (after an effect point: Add, NewBranch/append). Any other nil return claims
+// "known" or "accepted" without the tree saying so; e.g. a fast path through the long-lived height
+// map answers "already have" for a header that a trim removed, so after unmarking it can never be
+// re-accepted.
+func checkNilReturnsJustified(p *load.Program, r *kit.Report, rule string, ph *ssa.Function, g *phGuards, effs []kit.EffectPoint) {
+	var dupFound []kit.Edge
+	for _, e := range g.notDuplicate {
+		dupFound = append(dupFound, kit.Edge{From: e.From, Succ: 1 - e.Succ})
+	}
+	var stops []ssa.Instruction
+	for _, e := range effs {
+		stops = append(stops, e.Instr)
+	}
+	rr := kit.Reach(ph, []kit.Pt{kit.Entry(ph)}, kit.Opts{StopAt: kit.InstrSet(stops...), BlockEdge: kit.EdgeSet(dupFound...)})
+	bad := ""
+	for _, ret := range kit.Returns(ph) {
+		if !rr.Has(ret) {
+			continue
+		}
+		if kit.ReturnErrClass(ret) == kit.ErrNonNil || rr.ErrClass(ret) == kit.ErrNonNil {
+			continue
+		}
+		bad = "ProcessHeader can answer nil (" + retLabel(ret) + " at " + posOf(p, ret) + ") although the header was neither found in a branch nor added to one (" + rr.PathTo(ret, p.Pos) + ")"
+	}
+	r.Check(bad == "", rule, "ProcessHeader/nil-only-known-or-added", posOf(p, ph.Blocks[0].Instrs[0]), "every nil return is behind Find(hash) found or behind an effect on the tree", bad)
 }
